@@ -170,6 +170,20 @@ check('C20', 'E3', 'fault_enumeration',
       'Trusted: vp/refs/c20_model.py (abstract file content ABSENT/GARBAGE/DATA, no plasTeX import) and the reference unpickler.',
       'DESIGN.md 2/C20')
 
-_PENDING = {'C06': 'check not built yet in this round (planned: bounded exhaustive exploration, see DESIGN.md section 2)', 'C10': 'check not built yet in this round (planned: bounded exhaustive exploration, see DESIGN.md section 2)', 'C11': 'check not built yet in this round (planned: bounded exhaustive exploration, see DESIGN.md section 2)', 'C13': 'check not built yet in this round (planned: bounded exhaustive exploration, see DESIGN.md section 2)', 'C15': 'check not built yet in this round (planned: bounded exhaustive exploration, see DESIGN.md section 2)', 'C17': 'check not built yet in this round (planned: bounded exhaustive exploration, see DESIGN.md section 2)', 'C18': 'check not built yet in this round (planned: bounded exhaustive exploration, see DESIGN.md section 2)', 'C19': 'check not built yet in this round (planned: bounded exhaustive exploration, see DESIGN.md section 2)'}
+check('C17', 'E2', 'model_checking',
+      'explicit-state search over histories of documents, one freshly forked interpreter per history; snapshot invariant + differential oracle',
+      'Events are 27 documents that touch interpreter-wide state (register assignments, \\setlength, article/report/book, ifthen, '
+      '\\newcolumntype, input ending inside math / \\mbox{$ / lists / verbatim / a group, \\openout, \\newif, \\appendix, index, '
+      'bibliography, babel, redefinitions, catcodes) and all carry an observer block. Every ordered pair A;B (including B;B) is '
+      'run exhaustively, then histories are extended from every distinct leaked state to depth 3 (quick) / 4 (thorough). After '
+      'every completed document a generic snapshot of all class attributes of all Macro subclasses must equal the pristine one, '
+      'and the canonical tree (for three documents also the rendered HTML5 files) of the last document must equal that of the '
+      'same document processed alone in a fresh interpreter.',
+      'Trusted: vp/state.py snapshot (module-level Macro subclasses); differences are attributed to the one open finding '
+      '(register values live on classes) only when every leaked attribute is a register value and the difference disappears '
+      'when the snapshot is restored before the last document.',
+      'DESIGN.md 2/C17')
+
+_PENDING = {'C06': 'check not built yet in this round (planned: bounded exhaustive exploration, see DESIGN.md section 2)', 'C10': 'check not built yet in this round (planned: bounded exhaustive exploration, see DESIGN.md section 2)', 'C11': 'check not built yet in this round (planned: bounded exhaustive exploration, see DESIGN.md section 2)', 'C13': 'check not built yet in this round (planned: bounded exhaustive exploration, see DESIGN.md section 2)', 'C15': 'check not built yet in this round (planned: bounded exhaustive exploration, see DESIGN.md section 2)', 'C18': 'check not built yet in this round (planned: bounded exhaustive exploration, see DESIGN.md section 2)', 'C19': 'check not built yet in this round (planned: bounded exhaustive exploration, see DESIGN.md section 2)'}
 for _p, _why in _PENDING.items():
     NOT_APPLICABLE.append({'property_id': _p, 'reason': _why})
